@@ -19,6 +19,10 @@ type Trace struct {
 	Counts map[string]int
 	Sample []J
 	scn    string
+	// Sync makes every event reach the file before Emit returns (a write system call per
+	// event), for processes that are going to be killed
+	Sync     bool
+	LastTick int
 }
 
 var (
@@ -69,6 +73,9 @@ func (t *Trace) EmitLocked(ev J) {
 	}
 	t.w.Write(b)
 	t.w.WriteByte('\n')
+	if t.Sync {
+		t.w.Flush()
+	}
 	t.Events++
 	if a, ok := ev["a"].(string); ok {
 		t.Counts[a]++
@@ -100,4 +107,23 @@ func (t *Trace) Close() error {
 		return err
 	}
 	return t.f.Close()
+}
+
+// Raw appends an already encoded event (from a child process's trace).
+func (t *Trace) Raw(line string) {
+	t.mu.Lock()
+	defer t.mu.Unlock()
+	t.w.WriteString(line)
+	t.w.WriteByte('\n')
+	t.Events++
+	var ev struct {
+		A string `json:"a"`
+		T int    `json:"t"`
+	}
+	if json.Unmarshal([]byte(line), &ev) == nil {
+		t.Counts[ev.A]++
+		if ev.A == "Tick" {
+			t.LastTick = ev.T
+		}
+	}
 }
